@@ -207,6 +207,54 @@ def build() -> Check:
     fe = cpe.methods.get("from_exception")
     cats = {n.attr for n in ast.walk(fe.node) if isinstance(n, ast.Attribute) and isinstance(n.value, ast.Name) and n.value.id == "CheckpointErrorCategory"} if fe else set()
     ck.ob("R3.both-categories-reachable", fn_construct(fe) if fe else "exceptions.py:CheckpointError.from_exception", cats >= {"INVOCATION", "EXECUTION"}, f"categories assigned: {sorted(cats)}")
+    # ... and the table itself. Which checkpoint failures call for a Lambda retry is the SDK's documented classification (comment above the test, service contract):
+    # a 4xx answer other than 429 that carries an error body and is not "InvalidParameterValueException: Invalid Checkpoint Token..." is the one category, everything
+    # else - every 5xx, 429, the stale token, an answer without status or body - the other. The test is evaluated on a grid of status codes and error bodies
+    # (r9_C18: `>= 400 and not in (429, 500)` - the three codes the suite samples keep their class, 502/503/504 change sides and the wrapper raises where it
+    # must answer FAILED)
+    if fe is not None:
+        from sa.common import MiniEvalUnknown, mini_eval
+        mod_consts = {}
+        for st in prog.module("exceptions").tree.body if hasattr(prog.module("exceptions"), "tree") else []:
+            if isinstance(st, (ast.Assign, ast.AnnAssign)):
+                tg = st.targets[0] if isinstance(st, ast.Assign) else st.target
+                if isinstance(tg, ast.Name) and isinstance(st.value, ast.Constant) and isinstance(st.value.value, int):
+                    mod_consts[tg.id] = st.value.value
+        cat_ifs = [n for n in ast.walk(fe.node) if isinstance(n, ast.If) and any(isinstance(x, ast.Assign) and "CheckpointErrorCategory." in ast.unparse(x.value) for x in n.body)]
+        dflt = [x for x in fe.node.body if isinstance(x, (ast.Assign, ast.AnnAssign)) and x.value is not None and "CheckpointErrorCategory." in ast.unparse(x.value)]
+        sc_def = [x for x in fe.node.body if isinstance(x, (ast.Assign, ast.AnnAssign)) and isinstance(x.targets[0] if isinstance(x, ast.Assign) else x.target, ast.Name)
+                  and (x.targets[0] if isinstance(x, ast.Assign) else x.target).id == "status_code"]
+        if len(cat_ifs) == 1 and len(dflt) == 1 and not cat_ifs[0].orelse and len(sc_def) == 1 and mod_consts:
+            in_cat = ast.unparse([x for x in cat_ifs[0].body if isinstance(x, ast.Assign)][0].value).split(".")[-1]
+            out_cat = ast.unparse(dflt[0].value).split(".")[-1]
+            bodies = {"other error": {"Code": "ResourceNotFoundException", "Message": "no such execution"},
+                      "stale token": {"Code": "InvalidParameterValueException", "Message": "Invalid Checkpoint Token: abc"},
+                      "invalid parameter, other text": {"Code": "InvalidParameterValueException", "Message": "Updates too long"},
+                      "other code, token text": {"Code": "ServiceException", "Message": "Invalid Checkpoint Token"},
+                      "code and message missing": {"Other": 1},
+                      "no body": None}
+            wrong_, n_grid = [], 0
+            try:
+                for status in (None, 399, 400, 403, 404, 428, 429, 430, 499, 500, 501, 502, 503, 504, 599):
+                    for bname, body in bodies.items():
+                        md = None if status is None else {"HTTPStatusCode": status}
+                        env_ = dict(mod_consts, metadata=md, error=body, base=None)
+                        env_["status_code"] = mini_eval(sc_def[0].value, env_)
+                        got_in = bool(mini_eval(cat_ifs[0].test, env_))
+                        stale = body is not None and (body.get("Code") or "") == "InvalidParameterValueException" and (body.get("Message") or "").startswith("Invalid Checkpoint Token")
+                        want_in = status is not None and 400 <= status <= 499 and status != 429 and bool(body) and not stale
+                        n_grid += 1
+                        if got_in != want_in:
+                            wrong_.append(f"HTTP {status} with {bname}: classified {in_cat if got_in else out_cat}, the contract says {in_cat if want_in else out_cat}")
+                ck.analysed["classification_grid"] = n_grid
+                ck.ob("R3.checkpoint-error-classification-table", fn_construct(fe), in_cat == "EXECUTION" and out_cat == "INVOCATION" and not wrong_,
+                      ("; ".join(wrong_[:3]) + f" ({len(wrong_)} of {n_grid} grid points)") if wrong_ else f"the 4xx arm assigns {in_cat}, the default is {out_cat}: the two categories are the wrong way round")
+            except MiniEvalUnknown as u_:
+                ck.undecided_rule(f"R3.checkpoint-error-classification-table: `{u_}` in CheckpointError.from_exception is not understood")
+            except Exception as u_:   # a stand-in of the wrong type met an operator
+                ck.undecided_rule(f"R3.checkpoint-error-classification-table: evaluation failed ({type(u_).__name__}: {u_})")
+        else:
+            ck.undecided_rule("R3.checkpoint-error-classification-table: CheckpointError.from_exception no longer has the shape default category / one test / one assignment")
     ir = cpe.methods.get("is_retriable")
     ck.ob("R3.retriable-is-a-category-test", fn_construct(ir) if ir else "exceptions.py:CheckpointError.is_retriable",
           ir is not None and "error_category" in ast.unparse(ir.node) and "CheckpointErrorCategory." in ast.unparse(ir.node), "is_retriable must be decided by the error category")
